@@ -136,6 +136,8 @@ static void setup_inputs(void) {
 	else if (strcmp(size_cls, "half") == 0) bits = 128;
 	else if (strcmp(size_cls, "big") == 0) bits = 700;
 	else if (strcmp(size_cls, "full") == 0) bits = RLC_BN_BITS - 8;
+	else if (strcmp(size_cls, "edge") == 0) bits = RLC_BN_BITS;
+	else if (strcmp(size_cls, "over") == 0) bits = RLC_BN_BITS + 60;
 	for (int i = 0; i < NB; i++) {
 		rnd_bn(B[i], bits);
 		bn_zero(R[i]);
@@ -911,6 +913,12 @@ static void engine_run(void) {
 			tr_str("FILLOUT ");
 			tr_hex(outbuf, out_len > 96 ? 96 : out_len);
 			tr_str("\n");
+		}
+		{
+			/* whatever the call reported, the library must remain usable afterwards */
+			uint8_t pr[256];
+			size_t pl = usability_probe(pr);
+			tr_printf("POST probe=%d code=%d\n", pl == probe_ref_len && memcmp(pr, probe_ref, pl) == 0, err_get_code() != RLC_OK);
 		}
 		if (fail == NULL || strcmp(fail, "none") == 0 || A == 0 || thrown0) continue;
 
